@@ -28,7 +28,7 @@ def schedules(H, rng, n_random):
         out.append(('sparse', [(100.0, 'KA'), (300.0, 'UPD'), (500.0, 'KA')]))
         out.append(('burst', [(0.0, 'KA')] * 5 + [(250.0, 'UPD')]))
         for i in range(n_random):
-            out.append(('rand%d' % i, [(rng.choice([0.0, 1.0, 30.0, 239.0, 240.0, 241.0, 600.0]), rng.choice(['KA', 'UPD', 'UPDBAD', 'UPDUNK', 'RR']))
+            out.append(('rand%d' % i, [(rng.choice([0.0, 1.0, 30.0, 239.0, 240.0, 241.0, 600.0]), rng.choice(['KA', 'UPD', 'UPDBAD', 'UPDUNK', 'UPDOVR', 'RR']))
                                        for _ in range(rng.randint(1, 12))]))
         return out
     e = 0.001
@@ -38,7 +38,7 @@ def schedules(H, rng, n_random):
             continue
         out.append((nm + '-KA', [(g, 'KA')] * 3))
         out.append((nm + '-UPD', [(g, 'UPD')] * 3))
-        out.append((nm + '-alt', [(g, 'KA'), (g, 'UPD'), (g, 'UPDBAD'), (g, 'UPDUNK'), (g, 'KA')]))
+        out.append((nm + '-alt', [(g, 'KA'), (g, 'UPD'), (g, 'UPDBAD'), (g, 'UPDUNK'), (g, 'UPDOVR'), (g, 'KA')]))
         out.append((nm + '-UPDUNK', [(g, 'UPDUNK')] * 3))
     out.append(('burst', [(0.0, 'KA')] * 4 + [(0.0, 'UPD')] * 4 + [(H - e, 'KA')]))
     out.append(('long-run', [(H / 2.0, 'KA' if i % 2 else 'UPD') for i in range(200)]))
@@ -114,7 +114,7 @@ def run_case(cfg_hold, prop_hold, sched, order, phase='established', ka_delay=0.
             m_, p_, b_ = S.REST_SENDS[dict(REST='R_UPD', RESTRR='R_RR', RESTBIN='R_BIN')[kind]]
             w.rest(m_, p_, json_body=b_)
             continue
-        data = dict(KA=KEEPALIVE, UPD=S.UPD_EMPTY, UPDBAD=UPD_BAD, UPDUNK=S.UPD_UNKFAM, RR=S.MSGS['RR'][0])[kind]
+        data = dict(KA=KEEPALIVE, UPD=S.UPD_EMPTY, UPDBAD=UPD_BAD, UPDUNK=S.UPD_UNKFAM, UPDOVR=S.MSGS['UPD_wdoverrun'][0], RR=S.MSGS['RR'][0])[kind]
         w.deliver(data, tr)
         arrivals += 1
         if H:
@@ -170,10 +170,36 @@ def run_case(cfg_hold, prop_hold, sched, order, phase='established', ka_delay=0.
     return V, info
 
 
+def fuzz_case(body, H=9):
+    """a well-framed UPDATE with a hostile body arrives mid-session: unless the agent ends the session on it, it is an
+    UPDATE that arrived - the hold timer runs H seconds from it (returns violations, outcome)"""
+    w = World(time_opts={'hold_time': 180})
+    w.tick()
+    tr = w.accept()
+    w.deliver(peer_open(hold=H), tr)
+    w.deliver(KEEPALIVE, tr)
+    w.advance(H / 2.0)
+    n0 = len(tr.written)
+    t = w.now()
+    w.deliver(S.frame(2, body), tr)
+    fr = wire.frames_of_writes(tr.written[n0:])
+    if tr.disconnecting or not tr.connected or any(f[1] == 3 for f in fr):
+        return [], 'ended'
+    w.advance(2 * H + 1)
+    fr = wire.frames_of_writes(tr.written[n0:])
+    hold = [f[0] for f in fr if wire.summarize(f)[:3] == (3, 4, 0)]
+    if not hold or abs(hold[0] - (t + H)) > EPS:
+        return [dict(kind='fuzzed-update-hold', features=['Hpos'],
+                     detail='an UPDATE with body %s arrived at t=%s and the session went on, but Hold Timer Expired came at %s, expected %s (H=%s)'
+                     % (body.hex()[:120], t, hold[0] if hold else None, t + H, H))], 'continued'
+    return [], 'continued'
+
+
 def plan(tier, seed):
     pairs = [(c, p) for c in HOLDS for p in HOLDS]
     nsh = 16
-    return [dict(pairs=pairs[i::nsh], seed=seed * 100 + i, n_random=2 if tier == 'quick' else 60) for i in range(nsh)]
+    return [dict(pairs=pairs[i::nsh], seed=seed * 100 + i, n_random=2 if tier == 'quick' else 60,
+                 fuzz=250 if tier == 'quick' else 6000) for i in range(nsh)]
 
 
 def run_shard(sh):
@@ -219,6 +245,19 @@ def run_shard(sh):
                     key = (v['kind'], tuple(x for x in v['features'] if x in ('H0', 'Hpos', 'opensent')))
                     viol.setdefault(key, dict(v, replay=dict(cfg_hold=c, prop_hold=p, sched=sched, order=order, ka_delay=ka_delay)))
         res['sets'].setdefault('hold_pairs', []).append('%d/%d' % (c, p))
+    # ---- hostile UPDATE bodies as arrivals
+    from vlib import corpus, mutate
+    upd = [b for t, b in corpus.messages() if t == 2]
+    res['counters']['fuzzed_updates_continued'] = 0
+    res['counters']['fuzzed_updates_ended_session'] = 0
+    for i in range(sh.get('fuzz', 0)):
+        body = mutate.random_mutation(rng.choice(upd), rng)[:4077]
+        V, out = fuzz_case(body)
+        res['evaluations'] += 1
+        res['distinct'].append('fuzz|%d' % hash(body))
+        res['counters']['fuzzed_updates_continued' if out == 'continued' else 'fuzzed_updates_ended_session'] += 1
+        for v in V:
+            viol.setdefault((v['kind'], 'fuzz'), dict(v, replay=dict(fuzz_body=body.hex())))
     if sh['pairs']:
         c, p = sh['pairs'][0]
         res['samples'].append(dict(configured=c, proposed=p, schedule=schedules(min(c, p), random.Random(1), 1)[-1][1]))
@@ -239,6 +278,8 @@ def floors(m, tier):
 
 
 def replay(rep):
+    if 'fuzz_body' in rep:
+        return fuzz_case(bytes.fromhex(rep['fuzz_body']))[0]
     V, info = run_case(rep['cfg_hold'], rep['prop_hold'], [tuple(x) for x in rep['sched']], rep['order'], rep.get('phase', 'established'),
                        ka_delay=rep.get('ka_delay', 0.0))
     return V
